@@ -246,8 +246,8 @@ public:
     void pop_back()
     {
         assert(!empty());
-        alloc_traits::destroy(alloc_, std::addressof(data_[begin_]));
         --end_ &= mask_;
+        alloc_traits::destroy(alloc_, std::addressof(data_[end_]));
     }
 
     //! reset buffer contents
